@@ -71,7 +71,22 @@ func genWindowOps(rng *rand.Rand, c *Case, unit, ooo int64, allowLate bool, keys
 	for i := 0; i < n; i++ {
 		switch r := rng.Intn(100); {
 		case r < 62:
-			c.Ops = append(c.Ops, addOp(itoa(mkTs())))
+			tok := itoa(mkTs())
+			if len(keys) == 0 {
+				switch rng.Intn(16) { // timestamp field type variants (window/factory.go extractTimestamp)
+				case 0:
+					tok = "f" + tok
+				case 1:
+					tok = "s" + tok
+				case 2:
+					tok = "t" + tok
+				case 3:
+					tok = "h" + tok // float64 with fractional part .5: the integer part counts
+				case 4:
+					tok = "q" + tok // … .75
+				}
+			}
+			c.Ops = append(c.Ops, addOp(tok))
 		case r < 66:
 			c.Ops = append(c.Ops, addOp("none"))
 			c.Stat = append(c.Stat, "unplaceable-row")
@@ -159,6 +174,7 @@ func (c01) Gen(rng *rand.Rand, tier string, idx int) Case {
 	}
 	c.Cfg = [][]string{{"kind", "tumbling"}, {"mode", "et"}, {"size", itoa(size)}, {"ooo", itoa(ooo)}, {"late", "0"}, {"now", "0"}}
 	genWindowOps(rng, &c, size, ooo, false, nil)
+	bigEpoch(rng, &c)
 	c.Stat = append(c.Stat, "event-time")
 	return c
 }
